@@ -52,4 +52,15 @@ def k5(drv):
     return s_cmake.k5_witness(drv)
 
 
-WITNESSES = {'K1': k1, 'K2': k2, 'K3': k3, 'K5': k5, 'K6': k6, 'K7': k7}
+K8_SRC = ('cpp_class(Shape)\n  #[[[\n  # Area.\n  #]]\n  cpp_member(area Shape)\n  cpp_virtual_member(area)\ncpp_end_class()\n'
+          'function(helper x y)\nendfunction()\n')
+
+
+def k8(drv):
+    """a declaration that is never implemented swallows the next definition anywhere later: `helper` has no entry"""
+    with impl.Sandbox() as sb:
+        r = impl.real_pipeline(sb, K8_SRC, impl.make_settings())
+    return 'rst' in r and '.. function:: helper(' not in r['rst']
+
+
+WITNESSES = {'K8': k8, 'K1': k1, 'K2': k2, 'K3': k3, 'K5': k5, 'K6': k6, 'K7': k7}
